@@ -393,4 +393,4 @@ PROP = Prop(
     ],
 )
 
-RULE_EXTRA = ('callable metrics as function / lambda / partial / bound method / callable object / dataclass instance; integer score dtype; interior touches/runs completeness; re-assigned score arrays on the object; clause large_inputs with 6e6-1.2e7 (sample, target) pairs. Callables that depend on the whole vector of evaluation points; sample values in unsigned / narrow signed integer and boolean types; sample values and targets that are small multiples of 5e-324.')
+RULE_EXTRA = ('callable metrics as function / lambda / partial / bound method / callable object / dataclass instance; integer score dtype; interior touches/runs completeness; re-assigned score arrays on the object; clause large_inputs with 6e6-1.2e7 (sample, target) pairs. Callables that depend on the whole vector of evaluation points; sample values in unsigned / narrow signed integer and boolean types; sample values and targets that are small multiples of 5e-324. Grid sizes as IntEnum members / int-subclass instances.')
